@@ -268,6 +268,51 @@ theorem C15_tables_total :
   · intro d; cases d <;> exact ⟨_, rfl⟩
   · intro d; cases d <;> exact ⟨_, rfl, by decide⟩
 
+/-- **the parser's constants and arithmetic sites, as read from the current source**: the length test is `s.len() > 50`
+(observed on all-zero literals, cross-checked with the literal in the source), the three arithmetic sites call
+`checked_mul`, `checked_add`, `checked_mul`, and both `from_str_in` bodies still have the reviewed shape (cap
+`> i64::max_value() as u64` for both types, `negative` refused by the unsigned type). These are the hand-copied constants
+`50`, `U64MAX`, `I64MAX` of `Model/AmountText.lean` tied to the regenerated `Gen` values -/
+theorem C15_parser_constants :
+    Gen.amtMaxLen = 50 ∧ Gen.amtMaxLen = Spec.Decimal.maxLen ∧
+    Gen.amtParseMul = some .checked_mul ∧ Gen.amtParseAdd = some .checked_add ∧ Gen.amtRescaleMul = some .checked_mul ∧
+    Gen.shape_Amount_from_str_in = true ∧ Gen.shape_SignedAmount_from_str_in = true := by decide
+
+/-- **the model's overflow tests ARE the std methods named in the source.** Evaluating the methods the translator read at the
+three arithmetic sites (on u64, `Model/StdInt`) gives exactly the comparisons `10·v > 2^64−1`, `10·v + d > 2^64−1` that
+`parseLoop` and `rescale` use — for every accumulator value of the type and every digit. With a `wrapping_*` /
+`saturating_*` method at a site this statement is false (e.g. `v = 2^63`, where `wrapping_mul` returns `2^64·5 mod 2^64 = 0`) -/
+theorem C15_checked_steps (v dgt : Nat) (hv : v ≤ U64MAX) (hd : dgt ≤ 9) :
+    genDigitStep v dgt = (if 10 * v > U64MAX then none else if 10 * v + dgt > U64MAX then none else some ((10 * v + dgt : Nat) : Int)) ∧
+    genRescaleStep v = (if 10 * v > U64MAX then none else some ((10 * v : Nat) : Int)) := by
+  have hu : U64MAX = 2 ^ 64 - 1 := rfl
+  have hfit : ∀ x : Int, TyU64.fits x ↔ (0 ≤ x ∧ x ≤ 2 ^ 64 - 1) := by intro x; unfold IntTy.fits TyU64; simp
+  constructor
+  · simp only [genDigitStep, Gen.amtParseMul, Gen.amtParseAdd, StdOp.eval, IntTy.chk]
+    by_cases h1 : 10 * v > U64MAX
+    · have : ¬ TyU64.fits (10 * (v : Int)) := by rw [hfit]; omega
+      rw [if_neg this, if_pos h1]; rfl
+    · have : TyU64.fits (10 * (v : Int)) := by rw [hfit]; omega
+      rw [if_pos this, if_neg h1]
+      simp only [Option.bind_some]
+      by_cases h2 : 10 * v + dgt > U64MAX
+      · have : ¬ TyU64.fits (10 * (v : Int) + (dgt : Int)) := by rw [hfit]; omega
+        rw [if_neg this, if_pos h2]
+      · have : TyU64.fits (10 * (v : Int) + (dgt : Int)) := by rw [hfit]; omega
+        rw [if_pos this, if_neg h2]
+        congr 1
+  · simp only [genRescaleStep, Gen.amtRescaleMul, StdOp.eval, IntTy.chk]
+    by_cases h1 : 10 * v > U64MAX
+    · have : ¬ TyU64.fits (10 * (v : Int)) := by rw [hfit]; omega
+      rw [if_neg this, if_pos h1]
+    · have : TyU64.fits (10 * (v : Int)) := by rw [hfit]; omega
+      rw [if_pos this, if_neg h1]
+      congr 1
+
+/-- the formulation does exclude a wrapping site: with `wrapping_mul` the digit step at `v = 2^63` would return a value
+(test of the statement, not a theorem about /repo) -/
+example : (StdOp.wrapping_mul.eval TyU64 10 (2 ^ 63)) = some 0 ∧ (StdOp.checked_mul.eval TyU64 10 (2 ^ 63)) = none := by decide
+
 /-! The hypotheses are satisfiable / the statements are not vacuous. -/
 example : fromStrIn false [0x31, 0x2e, 0x35] .Monero = .ok 1500000000000 := (C15_parse_iff _ _ _ _).mpr (by decide)
 example : fromStrIn true [0x2d, 0x2e] .Monero = .ok 0 := (C15_parse_iff _ _ _ _).mpr (by decide)
